@@ -22,6 +22,7 @@ EXTENDS Synthetic, Json
 CONSTANTS Family,        \* "typed" or "untyped"
           Alphabet,      \* level types that may be used (typed family)
           MaxLv,         \* non-PU levels added by AddLevel
+          MinLv,         \* Finish needs at least MinLv of them (balances the random walks of the simulation mode)
           Arities, MaxPU,
           MaxGroups, MaxAtt,
           Style,         \* spelling style 1..3
@@ -122,7 +123,7 @@ Applicable(dd, v) == /\ v \in Variants
 
 LastT == IF Family = "untyped" THEN UNTYPED ELSE PU
 Finish(a, v) ==
-  /\ st = "build" /\ CurWidth * a <= MaxPU
+  /\ st = "build" /\ CurWidth * a <= MaxPU /\ Built >= MinLv
   /\ LET d1 == [d EXCEPT !.lv = Append(@, Lvl(LastT, a))] IN
      /\ Applicable(d1, v)
      /\ \E x \in IdxChoices(Variant(d1, v), NL(d1)) : d' = [Variant(d1, v) EXCEPT !.lv[NL(d1)].idx = x]
